@@ -177,8 +177,21 @@ def parse_data_types_and_routes_from_doc_ref(
             supplied_namespace = api.namespaces[namespace_context]
             if tag == 'field':
                 if '.' in val:
-                    type_name, __ = val.split('.', 1)
-                    doc_type = supplied_namespace.data_type_by_name[type_name]
+                    type_name, rest = val.split('.', 1)
+                    namespace = supplied_namespace
+                    if (type_name not in namespace.data_type_by_name and
+                            type_name not in namespace.alias_by_name and
+                            type_name in api.namespaces and '.' in rest):
+                        # field of a type in another namespace: ns.Type.field
+                        namespace = api.namespaces[type_name]
+                        type_name = rest.split('.', 1)[0]
+                    if type_name in namespace.alias_by_name:
+                        # the reference names the type through an alias
+                        doc_type = namespace.alias_by_name[type_name]
+                        while isinstance(doc_type, Alias):
+                            doc_type = doc_type.data_type
+                    else:
+                        doc_type = namespace.data_type_by_name[type_name]
                     data_types.add(doc_type)
                 else:
                     pass  # no action required, because we must be referencing the same object
